@@ -46,6 +46,24 @@ fn main() {
         Some("alloc-worker") => alloc::worker(&args[2..]),
         Some("sim") => cmd_sim(&args[2..]),
         Some("bench") => cmd_bench(&args[2..]),
+        Some("launcher-stress") => {
+            // development aid: all launcher cases N times, prints every deviation from the table
+            let n: usize = args.get(2).and_then(|s| s.parse().ok()).unwrap_or(10);
+            let mut bad = 0;
+            for i in 0..n {
+                for c in launcher::cases() {
+                    match launcher::run_case(&c) {
+                        Ok(o) if o.child == launcher::expected(&c).child => {}
+                        other => {
+                            bad += 1;
+                            println!("round {i} case {c:?}: {other:?}");
+                        }
+                    }
+                }
+            }
+            println!("launcher-stress: {n} rounds, {bad} deviations");
+            if bad == 0 { 0 } else { 1 }
+        }
         Some("trace") => cmd_trace(&args[2..]),
         Some("scenario") => {
             // hqmc scenario <name> [property signature history]: prints the scenario, or a replay record
